@@ -171,9 +171,13 @@ def strengthen(ctx, key, a):
                 if sts and d.c:
                     if all(s.prove_nonneg(-d) for s in sts):
                         new.append((("ige", Y.aff_ir(-d - 1)), not taken))
+                        if taken:
+                            new.append((("ige", Y.aff_ir(-d)), True))          # the side the invariant supplies: together they still say d == 0
                         done = True
                     elif all(s.prove_nonneg(d) for s in sts):
                         new.append((("ige", Y.aff_ir(d - 1)), not taken))
+                        if taken:
+                            new.append((("ige", Y.aff_ir(d)), True))
                         done = True
                     if done:
                         ts.notes.append(f"{t['src']}: `{Y.show(atom)}` read as an order test (one side is excluded by the inferred invariant)")
